@@ -119,6 +119,7 @@ func cmdCheck(args []string) int {
 	w, db := loadAll()
 	roots := rootsFor(db, prop)
 	lemmas := lemmasFor(db, prop)
+	lemmas = append(lemmas, sideCondsFor(db, prop)...)
 	if len(roots) == 0 && len(lemmas) == 0 {
 		fmt.Fprintf(os.Stderr, "govc: no contract mentions property %s\n", prop)
 		return 2
@@ -127,7 +128,7 @@ func cmdCheck(args []string) int {
 	if *tier == "thorough" {
 		timeout = 60000
 	}
-	outDir := filepath.Join(verifDir(), "out", "replay", prop)
+	outDir := filepath.Join(outRoot(), "replay", prop)
 	_ = os.RemoveAll(outDir)
 	run := &propRun{prop: prop, tier: *tier, seed: seed, t0: t0}
 	run.results = make([]*FnResult, len(roots))
@@ -173,7 +174,7 @@ func cmdCheck(args []string) int {
 		go func() {
 			defer wg.Done()
 			defer func() { <-sem }()
-			solveFn(r, solveOpts{timeoutMs: timeout, workers: 2, keepDir: filepath.Join(verifDir(), "out", "failed", prop)})
+			solveFn(r, solveOpts{timeoutMs: timeout, workers: 2, keepDir: filepath.Join(outRoot(), "failed", prop)})
 		}()
 	}
 	for _, l := range lemmas {
@@ -204,7 +205,7 @@ func cmdCheck(args []string) int {
 			if ob.Status == "unknown" && ob.Kind != "cover" && rescued < 10 && !knownOpen[ob.Name] {
 				rescued++
 				ob.Stage = "rescue"
-				retry(r, ob, solveOpts{timeoutMs: 3 * timeout, workers: 1, keepDir: filepath.Join(verifDir(), "out", "failed", prop)})
+				retry(r, ob, solveOpts{timeoutMs: 3 * timeout, workers: 1, keepDir: filepath.Join(outRoot(), "failed", prop)})
 			}
 		}
 	}
@@ -221,7 +222,7 @@ func report(run *propRun, w *World, db *ContractDB) int {
 			openKnown[k.Obligation] = k
 		}
 	}
-	outDir := filepath.Join(verifDir(), "out", "replay", prop)
+	outDir := filepath.Join(outRoot(), "replay", prop)
 	nOb, nDis, nViol, nKnown := 0, 0, 0, 0
 	var fns []string
 	var samples []map[string]interface{}
@@ -234,6 +235,7 @@ func report(run *propRun, w *World, db *ContractDB) int {
 	lateDecided := []string{} // obligations not decided by the primary solver in the function's script (stability watch list)
 	seenKnown := map[string]bool{}
 	var violLines []string
+	replays := 0
 	handle := func(ob *Obligation, script func() string) {
 		nOb++
 		if ob.Status == "discharged" {
@@ -261,7 +263,11 @@ func report(run *propRun, w *World, db *ContractDB) int {
 		rep := map[string]interface{}{"property": prop, "obligation": ob.Name, "kind": ob.Kind, "function": ob.Fn, "pos": ob.Pos,
 			"status": ob.Status, "solver": ob.Solver, "solver_output": ob.Model, "goal": ob.Goal}
 		suffix := " no-failing-input-found"
-		if ok, detail := tryReplay(w, ob, rep); ok {
+		replays++
+		if replays > 12 {
+			// (a change that breaks many obligations at once: the first dozen get a replay attempt, the rest only the solver output)
+			rep["replay_attempt"] = "replay budget of 12 attempts per check used up"
+		} else if ok, detail := tryReplay(w, ob, rep); ok {
 			suffix = ""
 			rep["replayed"] = detail
 		} else if detail != "" {
